@@ -18,7 +18,7 @@ RULE = ("cases = generated 3D plotfiles with affine / tagged / random fields x n
 ASSUMPTIONS = ["per box, pixels where the level holds only one of the two bracketing samples are "
                "not judged for the exact value (statement does not single out a value)",
                "pool shim M1"]
-REQUIRED_OBS = {"plotfiles_written": 100, "reused_instance_slices": 30, "boxes_checked": 300, "pixels_decided": 5000,
+REQUIRED_OBS = {"plotfiles_written": 100, "written_onto_existing_output": 40, "reused_instance_slices": 30, "boxes_checked": 300, "pixels_decided": 5000,
                 "splitting_cases": 1, "multi_level": 20, "cli_runs": 10}
 CHAIN = {"quick": 2, "thorough": 20}
 TIMEOUT = {"quick": 600, "thorough": 3000}
@@ -266,7 +266,7 @@ def run_case(case, work, rec):
                     fl = rng.choice([list(NAMES), ["a" + "xyz"[n], "tag" + "xyz"[n], "rnd"], ["rnd"], ["tagx", "ay"], ["near", "az"],
                                      ["ci" + "xyz"[n], "rnd"], ["ci" + "xyz"[n]]])
                     jobs.append((n, cp, limit, fl))
-    for n, (cls, pos), limit, fl in jobs:
+    for jn, (n, (cls, pos), limit, fl) in enumerate(jobs):
         L = finest if limit is None else limit
         if L not in vols:
             vols[L] = slicemodel.LevelVolumes(m, L)
@@ -281,15 +281,36 @@ def run_case(case, work, rec):
             poison.set_poison(pv)
             pools.CTL.reset(mode="inproc", seed=rng.randrange(10 ** 6))
             out = os.path.join(work, f"slice{pi}")
-            if os.path.exists(out):
-                shutil.rmtree(out)
+            # the requested output may exist already: every third request finds the slice plotfile of an
+            # earlier request there (another plane / field list / limit), every third an empty directory.
+            # The tool may refuse; after a normal return the path holds the slice that was asked for.
+            existing = None
+            if jn % 3 == 1 and os.path.isdir(out):
+                existing = "the plotfile of an earlier slice"
+            else:
+                if os.path.exists(out):
+                    shutil.rmtree(out)
+                if jn % 3 == 2:
+                    os.makedirs(out)
+                    existing = "an empty directory"
             try:
                 md = Mandoline(path, fields=list(fl), limit_level=limit, serial=(pi == 0), verbose=0)
                 md.slice(normal=n, pos=pos, outfile=out, fformat="plotfile")
                 outs.append(out)
+                if existing:
+                    rec.count("written_onto_existing_output")
             except Exception as e:
+                if existing and isinstance(e, (FileExistsError, IsADirectoryError)):
+                    rec.count("existing_output_refused")
+                    err = "refused"
+                    break
                 err = f"{type(e).__name__}: {str(e)[:200]}"
                 break
+        if err == "refused":
+            rec.ok(key, False)
+            continue
+        if existing:
+            descr += f" output={existing}"
         if err:
             if lenient:
                 rec.ok(key, False)
